@@ -94,7 +94,50 @@ macro_rules! tup {
 }
 
 /// args {arity: 1..16}: a tuple of distinct numbers must serialise to [0,1,..,n-1]
+/// a value whose serialisation fails
+struct Failing;
+impl serde::Serialize for Failing {
+    fn serialize<S: serde::Serializer>(&self, _s: S) -> Result<S::Ok, S::Error> {
+        Err(serde::ser::Error::custom("this value cannot be serialised"))
+    }
+}
+
+/// slices, vectors, arrays and JSON maps as params: the JSON text of the value itself, or its serialisation error
+fn containers() -> Value {
+    let mut why = vec![];
+    let want = json!([1, "two", [3], {"four": 4}, null]);
+    let items = vec![json!(1), json!("two"), json!([3]), json!({"four": 4}), Value::Null];
+    let text = |r: Result<Option<Box<serde_json::value::RawValue>>, serde_json::Error>| r.ok().flatten().map(|r| r.get().to_string());
+    let same = |t: Option<String>, w: &Value| t.as_deref().and_then(|t| serde_json::from_str::<Value>(t).ok()).as_ref() == Some(w);
+    if !same(text(items.clone().to_rpc_params()), &want) {
+        why.push("Vec<P> does not serialise to its elements in order".to_string());
+    }
+    if !same(text(items.as_slice().to_rpc_params()), &want) {
+        why.push("&[P] does not serialise to its elements in order".to_string());
+    }
+    let arr: [Value; 5] = [json!(1), json!("two"), json!([3]), json!({"four": 4}), Value::Null];
+    if !same(text(arr.to_rpc_params()), &want) {
+        why.push("[P; N] does not serialise to its elements in order".to_string());
+    }
+    if !same(text(Vec::<u8>::new().to_rpc_params()), &json!([])) {
+        why.push("an empty vector is not the empty array".to_string());
+    }
+    let mut m = serde_json::Map::new();
+    m.insert("b".into(), json!(1));
+    m.insert("a".into(), json!({"x": [1, 2]}));
+    if !same(text(m.clone().to_rpc_params()), &Value::Object(m)) {
+        why.push("a JSON map does not serialise to its own key/value pairs".to_string());
+    }
+    if vec![Failing].to_rpc_params().is_ok() || [Failing].to_rpc_params().is_ok() || (&[Failing][..]).to_rpc_params().is_ok() {
+        why.push("a value whose serialisation fails is not reported as an error".to_string());
+    }
+    json!({"scenario":"c20_tuple","observed":{"containers":true},"violation":!why.is_empty(),"why":why.join(" | ")})
+}
+
 pub fn tuple(a: &Value) -> Value {
+    if a["containers"].as_bool().unwrap_or(false) {
+        return containers();
+    }
     let n = a["arity"].as_u64().unwrap() as usize;
     let out = match n {
         1 => tup!(0).to_rpc_params(),
